@@ -61,6 +61,11 @@ func propertiesOf(spec *FuncSpec, f Fact) []string {
 	support := strings.Contains(f.Kind, ".inv[") || strings.HasPrefix(f.Kind, "call.") || strings.HasPrefix(f.Kind, "assert") ||
 		strings.Contains(f.Kind, "lemma") || strings.HasPrefix(f.Kind, "nopanic") || strings.HasPrefix(f.Kind, "panic.")
 	alias := strings.HasPrefix(f.Kind, "ensures") && (strings.Contains(f.Info, "fresh(") || strings.Contains(f.Info, "sarr(") || strings.Contains(f.Info, "unchanged("))
+	if spec.Opts["functional-hints"] != "" && strings.HasPrefix(f.Kind, "assert") {
+		// exit hints that only serve the functional postconditions (already counted above) of a helper that takes no
+		// lock itself: in concurrent mode they would be proved a second time, identically
+		support = false
+	}
 	for _, p := range []string{"C16", "C01", "C02"} {
 		if has(p) && (support || (p == "C16" && alias)) {
 			out = append(out, p)
